@@ -14,7 +14,9 @@ KEYWORDS = {"def", "class", "if", "in", "is", "or", "as", "not", "and", "for", "
             "None", "True", "False", "item", "type", "self", "cfg", "key", "env", "name"}
 KEYPOOL = ["alpha", "beta", "gamma", "delta", "eps", "zeta", "eta", "theta", "iota", "kappa", "lam", "mu", "nu", "xi",
            "omi", "pi", "rho", "sigma", "tau", "ups", "phi", "chi", "psi", "omega", "a1", "b2", "c3", "d4", "x_y",
-           "under_score", "CamelCase", "UPPER", "z9", "q", "w", "port2", "host2", "mode2", "lvl", "db", "http", "auth"]
+           "under_score", "CamelCase", "UPPER", "z9", "q", "w", "port2", "host2", "mode2", "lvl", "db", "http", "auth",
+           # names that coincide with document-level names of the formats (XML root tags, YAML root keys, XML item tags)
+           "config", "cfg", "k0", "item"]
 WILD = [None, True, False, 0, 1, -1, 2, 1.5, 0.0, float("nan"), float("inf"), "", "x", " ", "1", "true", "abc", b"", b"xy",
         [], [1], ["a"], {}, {"a": 1}, (1, 2), (), Opaque(), 10**30, 2**31, -2**63, "tk00aa", 1e300, [None], {"a": None}]
 SCALAR_FAMILIES = ["str", "loglevel", "appmode", "int", "float", "port", "bool", "ipv4", "net", "host", "url", "file",
@@ -77,6 +79,8 @@ def gen_params(rng, fam, allow_k5=False, boundary=True):
         p["create_helpers"] = False
     elif fam in ("int", "port"):
         pool = [-5, 0, 1, 10, 2**31, -2**31, 65535, 100]
+        if fam == "int":
+            pool += [0.5, 2.5, -0.5, -2.5]  # bounds need not be integers
         if rng.random() < (0.6 if fam == "int" else 0.2):
             p["min"] = rng.choice(pool)
         if rng.random() < (0.6 if fam == "int" else 0.2):
